@@ -194,7 +194,8 @@ def Sim.stepScript (s : Sim) (step : Json) : Except String Sim := do
                        widgetMapped := s.widgetMapped || (isCrd && (!s.lateServe || existed)) }
     if !s.watching then return s1
     return s1.notify i (if existed then .update else .add) (s1.obj i v)
-  | "del" =>
+  | "del" | "gapdel" =>
+    -- gapdel: the delete happens while the watch connection is down; the re-list must report it all the same
     let i ← natOf a[1]!
     match s.cur.find? (fun p => p.1 == i) with
     | none => return s
@@ -211,6 +212,11 @@ def gknLt (a b : Reporter.Gkn) : Bool :=
 def sortGkns (l : List Reporter.Gkn) : List Reporter.Gkn := l.mergeSort (fun a b => !(gknLt b a))
 
 def gknJson (t : Reporter.Gkn) : Json := Json.arr #[t.group, t.kind, t.ns]
+
+def dedupAdj : List String → List String
+  | [] => []
+  | [x] => [x]
+  | x :: y :: r => if x == y then dedupAdj (y :: r) else x :: dedupAdj (y :: r)
 
 def isSubseq : List String → List String → Bool
   | [], _ => true
@@ -287,7 +293,11 @@ def handleWatcher : Handler := fun i o => do
   let oFinal ← strList (← jget o "final")
   let oStarted ← jget o "started"
   let last (l : List String) : String := l.getLast?.getD "none"
-  let pairs := oSeq.zip mSeq
+  let hasGap := steps.any (fun s => match s.getArr? with | .ok a => a[0]! == Json.str "gapdel" | _ => false)
+  -- after an expired watch the informer re-lists: an update that was in flight may be reported twice or merged with the
+  -- next one (the fake tracker has no resourceVersions); sequences are then compared up to adjacent repetitions
+  let norm (l : List String) : List String := if hasGap then dedupAdj l else l
+  let pairs := (oSeq.map norm).zip (mSeq.map norm)
   let exact := strict && sim.restarts == 0
   let seqAgree := oSeq.length == mSeq.length && pairs.all fun (a, b) =>
     if !full then isSubseq a b
@@ -315,7 +325,7 @@ def handleWatcher : Handler := fun i o => do
   let region := if !spec && specButErrors && errors > 1 then some "C16.multi-error" else none
   let specM := mSeq.length == mFinal.length && ((mSeq.zip mFinal).all fun (l, f) => last l == f || (!strict && f == "NotFound" && l.isEmpty)) &&
     nErrors sim.rs.events == 0 && nSyncs sim.rs.events ≤ 1
-  let nMut := (steps.filter (fun s => match s.getArr? with | .ok a => a[0]! == Json.str "set" || a[0]! == Json.str "del" | _ => false)).length
+  let nMut := (steps.filter (fun s => match s.getArr? with | .ok a => a[0]! == Json.str "set" || a[0]! == Json.str "del" || a[0]! == Json.str "gapdel" | _ => false)).length
   let hasNs := watched.any (fun k => isNamespace ids[k]!)
   let hasCrd := watched.any (fun k => isCRD ids[k]!)
   return { model := m, agree := agree, spec := spec, specModel := specM || !full,
@@ -323,7 +333,7 @@ def handleWatcher : Handler := fun i o => do
            tags := [if sc = .root then "watcher:root" else "watcher:ns", if full then "watcher:full" else "watcher:cancelled",
                     if strict then "watcher:strict" else "watcher:racing", if hasNs then "watcher:ns-object" else "watcher:no-ns-object",
                     if hasCrd then (if jboolD i "lateServe" false then "watcher:crd-late-established" else "watcher:crd") else "watcher:no-crd", if direct.isSome && direct != some Json.null then "watcher:direct" else "watcher:Watch",
-                    s!"watcher:restarts{min sim.restarts 4}", s!"watcher:errors{errors}"] ++
+                    s!"watcher:restarts{min sim.restarts 4}", s!"watcher:errors{errors}"] ++ (if hasGap then ["watcher:delete-during-broken-watch"] else []) ++
              (match jint o "nilErrors" with | .ok n => if n > 0 then ["watcher:nil-error-event"] else [] | _ => []),
            region := region }
 
